@@ -199,6 +199,7 @@ func main() {
 	addTree(filepath.Join(*verif, "export/byteslice"), "pkg/pool/byteslice")
 	addTree(filepath.Join(*verif, "export/ringbuffer"), "pkg/pool/ringbuffer")
 	addTree(filepath.Join(*verif, "export/queue"), "pkg/queue")
+	addTree(filepath.Join(*verif, "export/ring"), "pkg/buffer/ring")
 	// flavour file
 	fl := fmt.Sprintf("//go:build verif\n\npackage vsys\n\n// Flavour of this build (generated by vinstr).\nconst (\n\tShimmed = %v\n\tPointed = %v\n\tPooled  = %v\n)\n", *shim, *points, *pool)
 	flp := filepath.Join(*out, "zz_flavour.go")
